@@ -27,6 +27,10 @@ func C08(c *core.Ctx) {
 	sized.MinSizedInts = true
 	for _, cfg := range []gen.Config{d, sized} {
 		ms := enumMembers(c.Tier, cfg)
+		// an integer enum that ALSO states bounds: the carrier and the value table still agree (also under --min-sized-ints)
+		for _, pos := range []string{"required", "optional"} {
+			ms = append(ms, member{name: "bounded integer enum " + pos, cfg: cfg, root: place(&fam.Spec{Kind: "integer", Enum: "ints", Kw: []string{"minimum", "maximum"}, IntBounds: true}, pos)})
+		}
 		ms = append(ms, member{name: "enum lookalike values", cfg: cfg, root: place(&fam.Spec{Kind: "any", Enum: "lookalike"}, "required")})
 		ms = append(ms, member{name: "enum values that normalise to one identifier", cfg: cfg, root: place(&fam.Spec{Kind: "string", Enum: "collide"}, "required")})
 		for _, mb := range ms {
